@@ -37,6 +37,7 @@ func c08(c *Ctx) {
 	c08noSharedContainers(c, pkg)
 	c08memoValuesStayPrivate(c, pkg)
 	c08kindEstablished(c, pkg)
+	c08contentLengthReadOnly(c)
 	c08validBeforeUse(c, pkg)
 	c08durationByType(c, pkg)
 	if os.Getenv("GZV_MEMO_SCAN") != "" {
